@@ -22,8 +22,9 @@ from clvm import to_list, canon, ser
 
 GEN = ["opcodes", "ladders", "chainconsts"]
 RULE = ("accepted generators (quoted spend lists from the cond grammar, quote and pool puzzles, 6 valid scenarios) enriched "
-        "with 10 memo shapes on every CREATE_COIN (absent, nil, 32/33/1-byte first memo, two memos, pair first memo, improper "
-        "list, atom instead of list, 32-byte memo with non-nil tail) and amount encodings, x flag sets, plus rejected and "
+        "with 11 memo shapes on every CREATE_COIN (absent, nil, EMPTY-atom/32/33/1-byte first memo, two memos, pair first memo, "
+        "improper list, atom instead of list, 32-byte memo with non-nil tail), amount encodings and spend-level extras, x flag sets, "
+        "twin spends sharing two of (parent, puzzle, amount), plus rejected and "
         "malformed generators (helpers are total) and /repo/generator-tests. "
         "non-trivial/distinct = distinct (source kind, memo shape, flag class, helper verdicts, spend-count bucket)")
 ASSUMPTIONS = ["CLVM evaluation is an oracle table recorded from the real interpreter per case",
@@ -149,14 +150,8 @@ def run_sbadd(rep, cases, have_model):
                                 "SpendBundle::additions deviates from its mirror")
 
 
-def oracle(rep, cases, listed):
-    lines = []
-    for c in cases:
-        strict1 = "F-C09-1" in listed
-        strict2 = "F-C09-2" in listed
-        lenient = not (strict1 and strict2)
-        lines.append("gen.oracle09 %d %d %s %s%s" % (c["flags"], c["max_cost"], G.hexo(c["program"]), G.refs_tok(c["refs"]),
-                                                     " lenient" if lenient else (" extras" if has_extras(c) else "")))
+def oracle(rep, cases):
+    lines = ["gen.oracle09 %d %d %s %s" % (c["flags"], c["max_cost"], G.hexo(c["program"]), G.refs_tok(c["refs"])) for c in cases]
     outs = G.vh(lines)
     from collections import Counter
     cl = Counter()
@@ -175,7 +170,6 @@ def oracle(rep, cases, listed):
 def run(ctx):
     rep, tier = ctx["rep"], ctx["tier"]
     rng = C.SplitMix64(ctx["seed"])
-    listed = listed_ids()
     env = G.Env(rng.fork("env"))
     if ctx.get("replay"):
         f = json.load(open(ctx["replay"]))
@@ -197,14 +191,11 @@ def run(ctx):
 
     n = int(os.environ.get("VERIF_GEN_N", "0")) or (110 if tier == "quick" else 2500)
     cases = []
-    allow_empty = "F-C09-1" in listed
-    allow_extras = "F-C09-2" in listed
+    allow_empty = True          # empty first memos and spend-level extras are part of the default stream
     for k in range(n):
         rw, used = memo_rewriter(rng.fork("memo%d" % k), allow_empty)
         valid = (k % 4 != 3)
         c = env.case(want_valid=valid, memo=rw)
-        if not allow_extras and has_extras(c):
-            continue            # spend-level extras: pending class F-C09-2, kept out of the default stream
         if ("proc", "proc-odd") in c["tags"] or ("bytes", "bitflip") in c["tags"]:
             continue            # arbitrary programs may loop up to the helpers' fixed 11e9 budget: too slow, not the property
         c["max_cost"] = G.BLOCK
@@ -231,7 +222,9 @@ def run(ctx):
                     conds.append(to_list([b"\x33", mr.bytes(32), canon(a), b"placeholder"]))
                 ct = rw(to_list(conds))
                 # force the wanted shape on the first CREATE_COIN of the first spend
-                spends.append(to_list([mr.bytes(32), (b"\x01", ct), canon(total), b""]))
+                tail = mr.choice([[], [], [b"extra"], [b"", (b"a", b"b")]])          # spend-level extras (ignored by validation)
+                spends.append(to_list([mr.bytes(32), (b"\x01", ct), canon(total), b""] + tail,
+                                      term=(mr.choice([b"", b"", b"\x01"]) if tail else b"")))
             prog = ser((b"\x01", (to_list(spends), b"")))
             fl = F["DONT_VALIDATE_SIGNATURE"] | (F["COST_CONDITIONS"] if mr.chance(1, 2) else 0) | (F["SIMPLE_GENERATOR"] if mr.chance(1, 4) else 0)
             cases.append({"program": prog, "refs": [], "flags": fl, "max_cost": G.BLOCK, "kind": "memo", "tags": [("memo", shape)],
@@ -267,22 +260,22 @@ def run(ctx):
                                                    "tags": [("file", name)]})
     run_trusted(rep, cases, ctx["have_model"])
     run_sbadd(rep, cases, ctx["have_model"])
-    oracle(rep, cases + impl_only, listed)
+    oracle(rep, cases + impl_only)
     rep.streams["gen.oracle09"]["implementation_only_files"] = sorted({t[1] for c in impl_only for t in c["tags"]})
 
-    # pending / known divergence classes: fixed witnesses, strict oracle (see notes/gen.md)
+    # fixed regression inputs: the former witnesses of F-C09-1 (0a21e864) and F-C09-2 (1aa0e3f6) must pass
     cc = lambda memo: to_list([b"\x33", b"\x22" * 32, canon(5)] + memo)
     s1 = to_list([b"\x11" * 32, (b"\x01", to_list([cc([to_list([b""])])])), canon(10), b""])
     s2 = to_list([b"\x11" * 32, (b"\x01", to_list([cc([])])), canon(10), b"", b"extra"])
-    wit = {"F-C09-1": "gen.oracle09 %d %d %s -" % (F["DONT_VALIDATE_SIGNATURE"], G.BLOCK, ser((b"\x01", (to_list([s1]), b""))).hex()),
-           "F-C09-2": "gen.oracle09 %d %d %s - extras" % (F["DONT_VALIDATE_SIGNATURE"], G.BLOCK, ser((b"\x01", (to_list([s2]), b""))).hex())}
-    pend = {}
-    for fid, line in wit.items():
+    wit = {"F-C09-1 empty first memo": "gen.oracle09 %d %d %s -" % (F["DONT_VALIDATE_SIGNATURE"], G.BLOCK, ser((b"\x01", (to_list([s1]), b""))).hex()),
+           "F-C09-2 spend-level extras": "gen.oracle09 %d %d %s -" % (F["DONT_VALIDATE_SIGNATURE"], G.BLOCK, ser((b"\x01", (to_list([s2]), b""))).hex())}
+    reg = {}
+    for what, line in wit.items():
         o = G.vh([line], shards=1)[0]
-        pend[fid] = {"class": PENDING[fid], "witness": line, "implementation": o, "listed_in_KNOWN_FINDINGS": fid in listed}
-        if fid in listed and not o.startswith("OK"):
-            rep.add_failure("gen.oracle09", line, o, "OK", "known divergence class " + PENDING[fid])
-    rep.streams["pending_finding_classes"] = pend
+        reg[what] = {"case": line, "implementation": o}
+        if not o.startswith("OK accepted"):
+            rep.add_failure("gen.oracle09", line, o, "OK accepted", "fixed defect is back: " + what)
+    rep.streams["regression_fixed_findings"] = reg
     from collections import Counter
     rep.streams["gen.trusted"]["kinds"] = dict(Counter(c["kind"] for c in cases))
     rep.streams["gen.trusted"]["memo_shapes"] = dict(Counter(m for c in cases for m in c.get("memo_used", [])))
